@@ -546,11 +546,24 @@ def run_case(chk, I, case, mline, where="generated"):
         fail(chk, f"C06 fails on find_local_peaks(integral, p={p}): {why}", small, str(refined)[:600], sigs)
     if half_in and p >= 2:
         half_precision_refine(chk, I, "find_local_peaks", I.full(half_in[0], thr, "integral", p), refined,
-                              lambda got: half_agrees(np, a, rough, got, refined, p, half_in[1]),
+                              lambda got: half_agrees(np, a, rough, got, refined, p, half_in[1],
+                                                      chk.extra.setdefault("half_vs_float32_err_over_tol", {})),
                               lambda got: oracle_refine(np, a, rough, got, p, half_in[1]), small, p)
 
 
-def half_agrees(np, a, rough, got, ref, p, dtype):
+# On HEAD (327aafb) half-precision maps are cropped in float32; the crop is cast back to the map's dtype and integral_regression
+# runs in it (sums accumulate in float32, results are rounded to the dtype), so the OFFSET carries a few units of the dtype's
+# relative round-off; the final point = float32 rough + offset is float32.  Tolerance = HALF_REL·kappa·max(|offset|, 0.02):
+# measured on HEAD  bf16 <= 0.25·tol, f16 <= 0.02·tol  (evidence: half_vs_float32_err_over_tol); a crop taken in bf16 at x > 256
+# (seed C07-r8m1) shifts symmetric bumps by 0.2 .. 1 px with offset ~0, i.e. hundreds of tolerances.
+HALF_REL = {"f16": 4 * 2.0 ** -11, "bf16": 4 * 2.0 ** -8}
+
+
+def half_tol(dtype, off_ref, kappa):
+    return HALF_REL[dtype] * max(1.0, kappa) * max(abs(off_ref[0]), abs(off_ref[1]), 0.02)
+
+
+def half_agrees(np, a, rough, got, ref, p, dtype, stats=None):
     """half-precision answer vs the float32 answer on the same values, peak by peak (the rough cells are known): fields exactly;
     where the true normaliser is not within sampling-leak noise of 0 the half-precision point must be finite and within the
     half-precision tolerance of the float32 point"""
@@ -561,8 +574,10 @@ def half_agrees(np, a, rough, got, ref, p, dtype):
         z, az = float(P.sum()), eff_abs_sum(np, P, a[g[3], g[4]], p)
         if abs(z) <= 1e-3 * az:
             continue  # knife-edge: the half-precision sum may round the normaliser to exactly 0
-        tol = REFINE_TOL[dtype] * max(1.0, (p + 1) / 2 * az / abs(z))
+        tol = half_tol(dtype, (qb[0] - g[0], qb[1] - g[1]), az / abs(z))
         for u, v in ((qa[0], qb[0]), (qa[1], qb[1])):
+            if stats is not None and u == u and abs(u) != float("inf"):
+                stats[dtype] = max(stats.get(dtype, 0.0), abs(u - v) / tol)
             if not (u == u and abs(u) != float("inf") and abs(u - v) <= tol):
                 return False
     return True
@@ -809,7 +824,14 @@ def main(chk: Check):
                 chk.disagree(f"{ent['id']} witness: float32 answer == model", ent["witness"], str(ref32), str(m))
             a_w = I.exact(cms)
             still = (got and got[0] == "raise") or not half_agrees(np, a_w, I.rough(cms, case["thr"]), got, ref32, p_, case["dtype"])
-            chk.known_replay(ent["id"], still_fails=bool(still), detail=f"half={got} float32={ref32}")
+            det = f"half={got} float32={ref32}"
+            if ent.get("witness_bf16"):
+                c2 = witness_case(ent["witness_bf16"])
+                t2 = I.tensor(c2)
+                r2, g2 = I.full(t2.float(), c2["thr"], "integral", c2["p"]), I.full(t2, c2["thr"], "integral", c2["p"])
+                still = still or (g2 and g2[0] == "raise") or not half_agrees(np, I.exact(t2), I.rough(t2, c2["thr"]), g2, r2, c2["p"], c2["dtype"])
+                det += f"; bf16 witness half={g2} float32={r2}"
+            chk.known_replay(ent["id"], still_fails=bool(still), detail=det)
             continue
         got = I.full(cms, case["thr"], "integral", ent["witness"]["patch"])
         rough = I.rough(cms, case["thr"])
@@ -891,7 +913,7 @@ def main(chk: Check):
         S, C = rng.randrange(1, 3), rng.randrange(1, 3)
         h, w = rng.randrange(1, 8), rng.randrange(1, 8)
         maps = [[[float(rng.randrange(0, 9)) / 8 for _ in range(w)] for _ in range(h)] for _ in range(S * C)]
-        kind = rng.choice(["block", "isolated", "ring", "plus_inf"])
+        kind = rng.choice(["block", "isolated", "ring", "plus_inf", "all_ninf", "very_negative"])
         for m in maps:
             if kind == "block":
                 i0, j0 = rng.randrange(h), rng.randrange(w)
@@ -910,8 +932,13 @@ def main(chk: Check):
                     for j in range(w):
                         if i in (0, h - 1) or j in (0, w - 1):
                             m[i][j] = ninf
-            else:
+            elif kind == "plus_inf":
                 m[rng.randrange(h)][rng.randrange(w)] = float("inf")
+        if kind in ("all_ninf", "very_negative"):
+            # one whole channel is -inf (resp. -3e38): below every threshold => the global detector must report NaN coordinates
+            # and value 0 for it; no local peak
+            k0 = rng.randrange(S * C)
+            maps[k0] = [[ninf if kind == "all_ninf" else -3e38 for _ in range(w)] for _ in range(h)]
         case = {"S": S, "C": C, "h": h, "w": w, "den": 1, "maps": maps, "thr": rng.choice([0.125, 0.5, -0.25]), "p": 0,
                 "dtype": dtype, "kind": "inf:" + kind, "shape": "inf"}
         cms = I.tensor(case)
